@@ -343,7 +343,7 @@ from typing import (
     Any, Callable, Dict, Iterable, Optional, SupportsInt, Tuple, Type, Union,
     overload, )
 
-from decimalfp import Decimal, ONE
+from decimalfp import Decimal, ONE, ROUNDING
 
 from .currencies import get_currency_info
 from .. import (
@@ -701,7 +701,13 @@ class ExchangeRate:
             mult *= 10
             term_amount *= 10
         self._unit_multiple = mult
-        self._term_amount = Decimal(term_amount, 6)
+        # round to nearest, independent of the current default rounding
+        # mode: the stored rate must be as close to the given one as possible
+        if isinstance(term_amount, Decimal):
+            self._term_amount = term_amount.adjusted(
+                6, ROUNDING.ROUND_HALF_EVEN)
+        else:
+            self._term_amount = Decimal(round(Fraction(term_amount), 6), 6)
 
     @classmethod
     def _identity(cls, currency: Currency) -> ExchangeRate:
